@@ -313,6 +313,57 @@ def init_eval(prog):
     return out
 
 
+
+def custom_scheme_eval(prog):
+    """References written inside a document whose URL has a scheme urllib.parse does not list as hierarchical -- a handler's own
+    scheme (`mem://host/dir/defs.json`), `urn:` -- must resolve against that document (RFC 3986 5.2.2: a fragment-only reference
+    designates the base document itself, whatever its scheme; a relative path replaces the base's last segment).  A resolver built by
+    the package's own constructor, once with its default caches and once with `urljoin_cache=urllib.parse.urljoin` supplied, enters the
+    scope of such a document (as `$ref` does after resolving a reference to it) and resolves references found there.
+    -> {clause: message | None} or None."""
+    from urllib.parse import urljoin
+    out = {"fragment-only": None, "relative-path": None, "urn-fragment": None, "caches-agree": None}
+    seen = {}
+    try:
+        for label, extra in (("default caches", {}), ("urljoin_cache=urljoin supplied", {"urljoin_cache": urljoin})):
+            ev = Ev(prog, fuel=80000, real_errors=True)
+            Obj.ev = ev
+            R = ClsRef(ev, prog.cls("validators.RefResolver"))
+            h = Handler({"mem://host/dir/defs.json": DOC, "mem://host/dir/other.json": {"x": "other"}})
+
+            def urlopen(u, *a, **k):
+                # what urllib answers for a URL without a scheme it can open; there is no network in the evaluated fragment
+                raise PyRaise("ValueError", "unknown url type: %r" % (u,))
+            ev.ext["urllib.request.urlopen"] = urlopen
+            ev.ext["urllib.request"] = type("M", (), {"urlopen": staticmethod(urlopen)})
+            ev.ext["requests"] = None
+            r = R("", {"root": True}, handlers={"mem": h}, store={"urn:example:doc": DOC}, **extra)
+            g = lambda n, r=r, ev=ev: ev.obj_getattr(r, n)
+            rows = (("fragment-only", "mem://host/dir/defs.json", "#/definitions/a", "mem://host/dir/defs.json#/definitions/a", DOC["definitions"]["a"]),
+                    ("relative-path", "mem://host/dir/defs.json", "other.json#/x", "mem://host/dir/other.json#/x", "other"),
+                    ("urn-fragment", "urn:example:doc", "#/definitions/a", "urn:example:doc#/definitions/a", DOC["definitions"]["a"]))
+            for clause, scope, ref, want_url, want_val in rows:
+                g("push_scope")(scope)
+                try:
+                    url, val = g("resolve")(ref)
+                except PyRaise as pr:
+                    url, val = "<%s>" % pr.name, None
+                g("pop_scope")()
+                seen.setdefault(clause, []).append((url, val))
+                if (url, val) != (want_url, want_val) and out[clause] is None:
+                    out[clause] = ("inside the document %s the reference %r resolves to %s%s (%s); RFC 3986 makes it %s -- the join ignores a base whose scheme "
+                                   "urllib.parse does not list as hierarchical" % (scope, ref, url, "" if val is None else " = %r" % (val,), label, want_url))
+        for clause, got in seen.items():
+            if len(got) == 2 and got[0] != got[1]:
+                out["caches-agree"] = ("%s: with the default caches the reference resolves to %r, with urllib.parse.urljoin supplied as urljoin_cache to %r: "
+                                       "the default cache is not a cache of the same join" % (clause, got[0][0], got[1][0]))
+    except Undecided:
+        return None
+    except PyRaise as pr:
+        out["raises"] = "raises %s (%s)" % (pr.name, pr.msg)
+    return out
+
+
 class _Requests:
     """stand-in for the optional `requests` library: records what it is asked for"""
     def __init__(self, log, docs):
